@@ -108,6 +108,28 @@ fn run_case<T: FV>(cx: &mut Ctx, c: &Value) {
     let fkey = <T::S as Flt>::NAME;
     let n = T::N;
     match kind {
+        // the libm backend computes exp / powf with its own routines: there the primitive of the property is libm's, not std's
+        "u" | "vs" if c["exp"] == "prim" && cfg!(feature = "libm") => {}
+        "u" | "vs" if c["exp"] == "prim" => {
+            // lifted primitive without a computed value: every lane must be the Rust primitive of that lane's operands
+            let va = parse_vec(&a[0]);
+            for r in 0..4 {
+                let la = pick(&va, r, n);
+                let x: T = conc(&la);
+                let (args, res, prim): (Vec<Value>, Result<hx::fvec::Spelled<T>, String>, Vec<Option<T::S>>) = if kind == "u" {
+                    (vec![jl(&la)], catch(|| x.un(op)), x.lanes().iter().map(|s| s.prim1(op)).collect())
+                } else {
+                    let sb = Fl::parse(&a[1]);
+                    let s = T::S::from_fl(&sb);
+                    (vec![jl(&la), sb.to_json()], catch(|| x.bin_vs(s, op)), x.lanes().iter().map(|p| p.prim2(s, op)).collect())
+                };
+                let le: Vec<Fl> = prim.iter().map(|p| p.map(|v| v.to_fl()).unwrap_or(Fl::Any)).collect();
+                match res {
+                    Ok(rs) => for (sp, g) in rs { check_vec::<T>(cx, c, sp, r, &args, &le, &Ok(g), None); },
+                    Err(p) => check_vec::<T>(cx, c, "any", r, &args, &le, &Err(p), None),
+                }
+            }
+        }
         "u" if c["exp"].is_object() => {
             let va = parse_vec(&a[0]);
             let ve = parse_vec(&c["exp"][fkey]);
